@@ -286,6 +286,13 @@ func (f *fixture) creds() []*cred {
 	add(&cred{Name: "expired-admin-token", Bearer: f.tokens["expired-admin"].Token, Class: "invalid-token"})
 	add(&cred{Name: "notyet-admin-token", Bearer: f.tokens["notyet-admin"].Token, Class: "invalid-token"})
 	add(&cred{Name: "jwt-g1-admin-signed-with-g2-key", Bearer: signJWT(G2.Hmac, G1.Kid, g1, []string{"admin"}), Class: "invalid-token"})
+	// signed with g2's own key, admin; no single audience entry names both this
+	// server and g2 (one names this server and g1, one names g2 on another server)
+	add(&cred{Name: "jwt-g2-admin-audience-split-over-two-entries", Bearer: signJWTAud(G2.Hmac, G2.Kid,
+		[]string{"https://elsewhere.example/group/" + g2 + "/", "https://galene.example/group/" + g1 + "/"}, []string{"admin"}), Class: "invalid-token"})
+	// the same for another server only
+	add(&cred{Name: "jwt-g2-admin-for-another-server", Bearer: signJWTAud(G2.Hmac, G2.Kid,
+		"https://elsewhere.example/group/"+g2+"/", []string{"admin"}), Class: "invalid-token"})
 	add(&cred{Name: "g1-wildcard-login", Basic: true, User: "c17-somebody", Pw: G1.WildPw, Class: "wildcard-login"})
 	// the password of the group's entry for the EMPTY username, presented
 	// under some other (or the empty) username: an ordinary login at best
